@@ -489,10 +489,13 @@ def sequential_outcomes(case):
         try:
             pos = [0] * len(threads)
             res = [[] for _ in threads]
-            for i in inter:
-                res[i].append(comp.do(threads[i][pos[i]]))
-                pos[i] += 1
-            probe = comp.probe()
+            try:
+                for i in inter:
+                    res[i].append(comp.do(threads[i][pos[i]]))
+                    pos[i] += 1
+                probe = comp.probe()
+            except sched.Deadlock:
+                res, probe = "deadlock", None
         finally:
             comp.close()
             shutil.rmtree(d, ignore_errors=True)
@@ -520,7 +523,11 @@ def _run_once(case, preempt):
         s.run()
         deadlock = s.deadlock
         errors = [type(w.error).__name__ for w in s.workers if w.error is not None]
-        probe = comp.probe() if not deadlock else None
+        try:
+            probe = comp.probe() if not deadlock else None
+        except sched.Deadlock:
+            # the component cannot serve the next call: a lock was left behind by a call that has ended
+            deadlock, probe = True, None
     finally:
         comp.close()
         shutil.rmtree(d, ignore_errors=True)
@@ -558,6 +565,10 @@ def _run_case(case):
     n = len(case["threads"])
     if case.get("sweep"):
         # every single pre-emption: at every global step, to every other thread
+        base = _run_once(case, [])
+        if base["deadlock"] or base["errors"]:
+            # already the run without any pre-emption fails: that is the outcome; sweeping it would take for ever
+            return {"sweep": [_judge_local(case, base)], "total_steps": base["steps"], "runs": 1}
         total = _total_steps(case)
         outs = []
         distinct = {}
